@@ -69,6 +69,16 @@ def classify_site(call: ast.Call, fn: ast.FunctionDef) -> tuple[bool, str]:
             return True, "accumulated text (checked by L2)"
         return False, f"start/end are not (line, column) pairs: {norm_stmt(vals['start'])}, {norm_stmt(vals['end'])}"
     (sl, sc), (el, ec) = sp, ep
+    # the `line` handed out with the token is the physical line its start row names
+    if "line" in vals:
+        lt = norm_stmt(_resolve(vals["line"], defs))
+        import re as _re3
+        m = _re3.fullmatch(r"(\w+)\.(line|last_line)", lt)
+        if m:
+            want_row = f"{m.group(1)}.lnum" if m.group(2) == "line" else f"{m.group(1)}.lnum - 1"
+            if sl != want_row:
+                return False, (f"the token is placed on row `{sl}` but carries `{lt}` as its line (the text of row `{want_row}`): error "
+                               f"text and the line cache then show a line under the number of another one")
     # columns are character indices into the line; the indentation *measure* (tab-expanded, reset by form feeds) is not one
     measures = {n.targets[0].id for n in ast.walk(fn) if isinstance(n, ast.Assign) and isinstance(n.targets[0], ast.Name)
                 and any(isinstance(x, ast.Name) and x.id == "tabsize" for x in ast.walk(n.value))}
@@ -283,6 +293,32 @@ def rule_l5(chk: Check, ix: Index, rule_id: str = "L5-line-model"):
                      f"text after a page break is dropped")
     chk.count(rule_id)
     chk.ok(rule_id, "runtime-modules:scanned", repo.TOKENIZE, f"{n_funcs} functions scanned")
+    # the scanner's current line is the text the reader delivered, untouched: every store to `.line` of the scanner state is
+    # a read (`readline()`) or the end-of-input marker ""
+    n_writes = 0
+    for q, f in sorted(ix.funcs.items()):
+        if f.rel != repo.TOKENIZE or f.cls not in (None, "TokenizerState"):
+            continue
+        for n in own_nodes(f.node):
+            tgts = []
+            if isinstance(n, ast.Assign):
+                tgts = [(t, n.value) for t in n.targets]
+            elif isinstance(n, (ast.AugAssign, ast.AnnAssign)) and n.value is not None:
+                tgts = [(n.target, None if isinstance(n, ast.AugAssign) else n.value)]
+            for t, v in tgts:
+                for tt, vv in (zip(t.elts, v.elts) if isinstance(t, ast.Tuple) and isinstance(v, ast.Tuple) and len(t.elts) == len(v.elts) else [(t, v)]):
+                    if isinstance(tt, ast.Attribute) and tt.attr == "line" and norm_stmt(tt.value) in ("self", "state"):
+                        n_writes += 1
+                        chk.count(rule_id)
+                        okv = vv is not None and ((isinstance(vv, ast.Constant) and vv.value == "") or
+                                                  (isinstance(vv, ast.Call) and norm_stmt(vv.func) in ("self.readline", "state.readline", "readline")
+                                                   and not vv.args))
+                        chk.require(okv, rule_id, f"{q}:line-is-what-was-read", f"{f.rel}:{n.lineno}",
+                                    f"`{norm_stmt(n)[:70]}` changes the scanner's current line: columns are indices into the line as it was "
+                                    f"read, so a character removed or rewritten here lies in no token and every later token of the line is "
+                                    f"reported at a shifted column")
+    if n_writes < 2:
+        raise AnalysisError("L5: the stores to the scanner's current line were not found (expected the read and the end-of-input marker)")
 
 
 def rule_l2(chk: Check, ix: Index):
